@@ -17,6 +17,9 @@ Definition tlev_eqb (a b : tlev) : bool :=
   && (tl_sleep a =? tl_sleep b) && optk_eqb (tl_class a) (tl_class b) && optstop_eqb (tl_stop a) (tl_stop b)
   && optcause_eqb (tl_cause a) (tl_cause b).
 
+Definition hint_eqb (a b : hint) : bool :=
+  match a, b with HFin x, HFin y => x =? y | HNaN, HNaN | HPInf, HPInf | HNInf, HNInf => true | _, _ => false end.
+Definition opth_eqb := opt_eqb hint_eqb.
 Definition ev_eqb (a b : ev) : bool :=
   match a, b with
   | EPoll x, EPoll y => Bool.eqb x y
@@ -24,12 +27,12 @@ Definition ev_eqb (a b : ev) : bool :=
   | EClassify x, EClassify y => x =? y
   | ERClassify x, ERClassify y => x =? y
   | EStrat s1 l1 a1 k1 r1 p1 m1 c1, EStrat s2 l2 a2 k2 r2 p2 m2 c2 =>
-      sid_eqb s1 s2 && Bool.eqb l1 l2 && (a1 =? a2) && klass_eqb k1 k2 && optZ_eqb r1 r2 && optZ_eqb p1 p2
+      sid_eqb s1 s2 && Bool.eqb l1 l2 && (a1 =? a2) && klass_eqb k1 k2 && opth_eqb r1 r2 && optZ_eqb p1 p2
       && optZ_eqb m1 m2 && optcause_eqb c1 c2
   | EBudget x, EBudget y => Bool.eqb x y
   | EMetric n1 a1 s1 t1, EMetric n2 a2 s2 t2 => evname_eqb n1 n2 && (a1 =? a2) && (s1 =? s2) && tags_eqb t1 t2
   | ELog n1 a1 s1 t1 r1, ELog n2 a2 s2 t2 r2 =>
-      evname_eqb n1 n2 && (a1 =? a2) && (s1 =? s2) && tags_eqb t1 t2 && optZ_eqb r1 r2
+      evname_eqb n1 n2 && (a1 =? a2) && (s1 =? s2) && tags_eqb t1 t2 && opth_eqb r1 r2
   | EHandler w1 a1 k1 d1 h1, EHandler w2 a2 k2 d2 h2 =>
       who_eqb w1 w2 && (a1 =? a2) && klass_eqb k1 k2 && (d1 =? d2) && hdec_eqb h1 h2
   | EBeforeSleep w1 a1 d1, EBeforeSleep w2 a2 d2 => who_eqb w1 w2 && (a1 =? a2) && (d1 =? d2)
